@@ -417,6 +417,13 @@ def line_trees():
     return out
 
 
+def html_raw_trees():
+    """HTML-shaped trees in which script / style content is raw text copied out of a result tree fragment, followed by text that needs escaping"""
+    return [[E("html", E("head", E("title", T("t")), E("script", D("var s = 1;", rtf=True)), E("style", D("b{c:d}", rtf=True))),
+                      E("body", E("p", T("1 < 2 & 3 > 2")), E("script", D("x();", rtf=True)), E("p", T("a&b"), E("i", T("<i>"))), T("tail & <")))],
+            [E("html", E("body", E("div", E("script", D("go()", rtf=True)), T("x<y"), E("c", T("1 < 2 & 3"))), E("p", D("raw", rtf=True), T(" & after"))))]]
+
+
 def gen_xmlish(rng, depth=0):
     """seeded random tree: mixed content, whitespace-only text, comments / PIs, cdata-section element `c`, attributes with
     special characters, disable-output-escaping text; comments / PIs also around the document element"""
@@ -456,6 +463,13 @@ def gen_xmlish(rng, depth=0):
 URLS = ["a b.png", "http://x/é y?a=1&b=2", "plain.html", "café/€.gif", "q?x=\"1\"", "#frag", "\U0001d11e.mid", "a%20b"]
 SCRIPTS = ["if (a<b && c>d) x();", "var s = \"q\";", "a&b", "x = 1 < 2;", "var e = 'caf\u00e9 \u20ac';"]
 STYLES = ["p > a { x: 'y' }", "b{c:d}", "a:before { content: \"<\" }", "q:after { content: '\u00e9\u20ac' }"]
+
+
+def raw_or_text(rng, v):
+    """the content of a script / style element: an ordinary text instruction, or (1 in 3) disable-output-escaping text that comes out of a
+    result tree fragment - the same text either way (these elements are not escaped), and what FOLLOWS them must be escaped as ever"""
+    plain = not any(c in v for c in "<&>")          # (raw text is written as it is by the xml reference run too: plain characters only)
+    return D(v, rtf=True) if plain and rng.random() < 0.5 else T(v)
 
 
 def gen_htmlish(rng, root="html", lead_comment=False):
@@ -501,7 +515,7 @@ def gen_htmlish(rng, root="html", lead_comment=False):
         if r < 0.73:
             return E("pre", T(rng.choice(["  two\n   lines ", "x", " \n "])), *([E("b", T("k"))] if rng.random() < 0.4 else []))
         if r < 0.81:
-            return E("script", T(rng.choice(SCRIPTS)), a=([["src", rng.choice(URLS)]] if rng.random() < 0.3 else []))
+            return E("script", raw_or_text(rng, rng.choice(SCRIPTS)), a=([["src", rng.choice(URLS)]] if rng.random() < 0.3 else []))
         if r < 0.87:
             return E("hr")
         if r < 0.93:
@@ -509,9 +523,9 @@ def gen_htmlish(rng, root="html", lead_comment=False):
         return E("table", E("tr", E("td", *seq(d, 1)), E("td")))
 
     head = [E("title", T(rng.choice(["T", "T & <t>", "café"])))]
-    if rng.random() < 0.4: head.append(E("style", T(rng.choice(STYLES))))
+    if rng.random() < 0.4: head.append(E("style", raw_or_text(rng, rng.choice(STYLES))))
     if rng.random() < 0.3: head.append(E("link", a=[["href", rng.choice(URLS)], ["rel", "stylesheet"]]))
-    if rng.random() < 0.3: head.append(E("script", T(rng.choice(SCRIPTS))))
+    if rng.random() < 0.3: head.append(E("script", raw_or_text(rng, rng.choice(SCRIPTS))))
     if rng.random() < 0.15: head.insert(0, E("meta", a=[["name", "k"], ["content", "v"]]))
     body = [block(0) for _ in range(rng.choice([1, 2, 3, 4]))]
     if rng.random() < 0.3: body.insert(rng.randrange(len(body) + 1), T(rng.choice(["loose text", " "])))
